@@ -36,6 +36,8 @@ def ob_connecting_result(report):
         od = z3.BitVec('oneshot.discr', 64)
         seen = set()
         for r in res:
+            if r.tag == 'loop-bound':
+                continue            # iterations beyond the unrolling bound: outside the claim
             if r.tag != 'return':
                 return viol(ob, [ex], f'handle_connecting_result can {r.tag}', 'result-abnormal', path_summary(r), len(res))
             ok_ = e2.solve(r.pc + [rd != 0], want_model=False)[0] == 'unsat'
